@@ -32,7 +32,7 @@ def explore(ck):
                '(every byte in the thorough tier); exit status, names and sizes in the dump folder are compared with the output-protocol model (OutProto.run with the 4 MB BufWriter capacity) '
                'and with the property: exit 0 => finals identical to the undisturbed run and no *.tmp; failure => no final-named file. (b) input faults at every height: blk file removed, emptied, '
                'truncated inside the magic, the size prefix, the header, a transaction; offset past EOF: non-zero exit, failing height reported, no final-named file. (c) crash points: SIGKILL / ENOSPC '
-               'injected with strace at the n-th write and at the n-th rename/link/copy_file_range/sendfile on the dump files, the dump folder pre-seeded with longer stale *.tmp files of an aborted run: every final-named file that exists is complete. Non-trivial: the fault lands strictly inside the output '
+               'injected with strace at the n-th write and at the n-th rename/link/copy_file_range/sendfile on the dump files, a failing (EACCES) n-th rename, the dump folder pre-seeded with longer stale *.tmp files of an aborted run: every final-named file that exists is complete. Non-trivial: the fault lands strictly inside the output '
                '(0 < limit < total) or on an input byte of a processed block; distinct by (callback, fault).')
     # ---------- (a) write budget ----------
     chains = []
@@ -85,23 +85,23 @@ def explore(ck):
         for cb in FILECB:
             nw = len(STEMS[cb])
             for kind, call, n in [(k, c_, n) for k in ('kill', 'enospc') for c_ in ('write', 'rename') for n in range(1, nw + 1)]:
-                if kind == 'enospc' and call == 'rename': continue
+                # 'enospc' on the rename family = the n-th rename fails (EACCES): exit 0 would then claim finals that are not there
                 if quick and cb == 'csv' and n in (2, 3) and kind == 'kill' and call == 'write': continue
                 out = os.path.join(ck.tools.work, 'inj_%s_%s_%s_%d' % (c.id, cb, kind + call, n)); os.makedirs(out, exist_ok=True)
                 # "rename" stands for every call that can give a file its final name or move bytes towards it (a copy instead of a rename would use copy_file_range / sendfile / link)
                 calls = 'write,pwrite64,writev' if call == 'write' else 'rename,renameat,renameat2,link,linkat,copy_file_range,sendfile'
-                inj = 'inject=%s:%s:when=%d' % (calls, 'signal=SIGKILL' if kind == 'kill' else 'error=ENOSPC', n)
+                inj = 'inject=%s:%s:when=%d' % (calls, 'signal=SIGKILL' if kind == 'kill' else ('error=ENOSPC' if call == 'write' else 'error=EACCES'), n)
                 wrapper = ['strace', '-f', '-qq', '-o', '/dev/null', '-e', 'trace=' + calls, '-e', inj] + \
                           sum((['-P', os.path.join(out, s_ + '.csv.tmp')] for s_ in STEMS[cb]), [])
                 rr = run.run_impl(ck.tools, c, cb, datadir=dd, outdir=out, wrapper=wrapper, prefill='stale')
                 ck.evaluated(); ck.count('injection runs:' + kind + '-' + call); ck.nontrivial((c.id, cb, kind, call, n))
                 finals = {nm: d for nm, d in rr.files.items() if not nm.endswith('.tmp')}
                 diffs = []
-                if rr.rc == 0: diffs.append('exit 0 although the %d-th %s on the dump files was %s' % (n, call, 'killed' if kind == 'kill' else 'failed with ENOSPC'))
+                if rr.rc == 0: diffs.append('exit 0 although the %d-th %s on the dump files was %s' % (n, call, 'killed' if kind == 'kill' else 'failed (ENOSPC / EACCES)'))
                 for nm, d in finals.items():
                     ref = clean[cb].files.get(nm)
                     if ref is None or (sorted(d.split(b'\n')) != sorted(ref.split(b'\n'))): diffs.append('final-named file %s holds partial content (%d bytes, complete %s)' % (nm, len(d), len(ref) if ref else None))
-                if kind == 'enospc' and finals: diffs.append('write failure but final-named files exist: %s' % sorted(finals))
+                if kind == 'enospc' and call == 'write' and finals: diffs.append('write failure but final-named files exist: %s' % sorted(finals))
                 if diffs: ck.disagreement('%s with %s at %s #%d on %s' % (cb, kind, call, n, c.id), '\n'.join(diffs), c, in_domain=True, extra_replay='# inject %s %s %s %d' % (cb, kind, call, n))
                 shutil.rmtree(out, ignore_errors=True)
         shutil.rmtree(dd, ignore_errors=True)
